@@ -4,7 +4,7 @@ ENGINES = [
     {
         "name": "symx",
         "path": "/verif/symx",
-        "serves_properties": ["C01", "C03", "C04", "C05", "C06", "C07", "C08", "C12", "C13", "C16", "C17", "C18"],
+        "serves_properties": ["C01", "C02", "C03", "C04", "C05", "C06", "C07", "C08", "C12", "C13", "C16", "C17", "C18"],
         "kind_free_text": "own symbolic executor: geoh5py's real functions run under CPython with the module-global "
         "`np` (and, for file paths, `h5py`) rebound to z3-backed models; re-execution DFS forks on symbolic "
         "branches; obligations are z3 validity queries; counterexamples are replayed on real numpy/h5py",
@@ -211,6 +211,23 @@ CLAIMED["C05"] = _symx(
 )
 CLAIMED["C05"]["design_ref"] = "DESIGN.md section 12.12"
 
+CLAIMED["C02"] = _symx(
+    "C02",
+    "symx path exploration of sequences of real API operations (operation per step and removal indices symbolic, z3 feasibility; "
+    "every sequence of the bounded length is one explored path) on a real HDF5 file, followed by a structural validator that "
+    "opens the file with real h5py and evaluates the layout rules of the statement; counterexamples replayed on real numpy/h5py",
+    "bounded model checking, partial and weaker than the value-level claims: the solver enumerates the operation sequences "
+    "(15-operation alphabet, length 2, thorough 3; plus 12 cross-workspace / drillhole-group cases) and decides the symbolic "
+    "removal indices; after each sequence and a close, the file must have one project group with Data / Groups / Objects / Types "
+    "and a Root link, every entity stored under its identifier with a matching ID attribute, a Type link that is the same HDF5 "
+    "object as the shared type, parent-to-child entries that are hard links to the nodes of the flat containers, exactly one "
+    "parent per entity and reachability from Root, no identifier twice, property groups listing only children of their "
+    "object. The rules themselves are checked on the concrete file (nothing symbolic in them).",
+    "trusted: h5py for reading the layout back, the structural validator (harness/c02.py), the symx explorer; the numpy model only "
+    "matters for the operations' payloads; holds for the explored sequences only",
+)
+CLAIMED["C02"]["design_ref"] = "DESIGN.md section 12.13"
+
 _XH_NOTE = (
     "trusted: CrossHair 0.0.110 (symbolic execution of CPython code with z3) and its models of builtins; the harness "
     "functions call the real geoh5py kernels directly (no translation); holds only within the value bounds in the evidence"
@@ -274,8 +291,6 @@ CLAIMED["C06"] = {
 _NOT_BUILT = "check not built yet (planned, see DESIGN.md section 5)"
 
 NOT_APPLICABLE = {
-    "C02": "validity of the HDF5 link graph is produced by the h5py C library under call histories; nothing symbolic "
-    "to decide, a fake h5 layer would only restate the stub",
     "C09": "frame property over all reachable workspace states observed as per-node digests of an HDF5 file; the only "
     "arithmetic frame condition (other holes' concatenated rows) is decided in C04",
     "C10": "immutability is delivered by h5py's read-only handle and the mode string; quantifier is over programs "
